@@ -29,7 +29,7 @@ CLAIMS = {
         "Decides structural clauses: the record loop performs exactly one read(64) per iteration whose non-empty result is "
         "yielded unmodified and unconditionally through from_kd_buf and whose emptiness is the only exit (so m records give m "
         "events in order for any record bytes); the thread-map entry layout and count; clear-then-fill of the shared tables "
-        "without rebinding, later entry winning. The header size-class rule reports the greedy zero skipper `_pad` as a known "
+        "without rebinding, later entry winning; that a request without filters lists every event the parser yields is taken over from C12's pipeline rules. The header size-class rule reports the greedy zero skipper `_pad` as a known "
         "finding (genuine: it eats leading zero bytes of the first record).",
         "The absolute layout of the 0x11c header bytes before the thread map is not decided; construct's documented sizes are "
         "trusted.",
@@ -58,7 +58,7 @@ CLAIMS = {
         "append-then-pop-then-decode on END, append-and-decode on NONE/ALL, the append loop of each action entered for every record the action gets, domain selection by the trace-family registry, "
         "totality of the qualifier table, the generator yielding exactly the non-None results in order, and - as an ownership "
         "rule over all registered decoders and the parser's other methods - nothing else writes the window tables, and every decoder "
-        "returns a trace on every path that does not test the record's own qualifier). The window contents "
+        "returns a trace on every path that does not test the record's own qualifier; K12: the record list a trace carries is the window itself or an unconditional record-by-record copy of it). The window contents "
         "as a function of an arbitrary history are not decided: each K is such that breaking it changes the traces of some "
         "history, which the seeded-fault self-test demonstrates.",
         "Histories themselves are not enumerated (that would be a different technique).",
@@ -106,7 +106,7 @@ CLAIMS = {
         "whole data, left to right, NULs removed, ids from the START record; continuation records cannot avoid becoming traces "
         "(reported as four known findings - genuine); in all 66 path-taking decoders the looked-up paths appear in lookup "
         "order, the second path computed from the records not consumed by the first; a decoder that joins the payloads of its "
-        "window may select records only by their code, not by a field that differs between START / continuation / END. Byte-exact text for each length is not "
+        "window may select records only by their code, not by a field that differs between START / continuation / END; that the lookup decoder returns a trace for every record it is given is taken over from C04/K11. Byte-exact text for each length is not "
         "decided.",
         "Chunk boundary arithmetic (24 + 32k) is the kernel's and is not modelled.",
         "DESIGN.md §4 C08"),
@@ -142,7 +142,7 @@ CLAIMS = {
         "The ioctl split is shown to be the exact inverse of _IOC with disjoint fields covering 32 bits; the fields a "
         "decoder cuts out of one record word by shifts and masks are shown pairwise disjoint; a zero-valued member named "
         "explicitly is shown exactly when the word is zero; a member looked up in a table by a loop-narrowed rest of the word is shown "
-        "to miss for words with undeclared bits.",
+        "to miss for words with undeclared bits. A member whose value is imported from outside the package is reported (the host's value is not Darwin's on every host); one that cannot be evaluated is exit 2.",
         "Reference values are transcriptions of XNU headers (vstatic/oracles/darwin.py). The access-mode selection loop of "
         "serialize_open_flags (first match wins + for/else) is not decided for the undefined value 3.",
         "DESIGN.md §4 C11"),
@@ -166,7 +166,7 @@ CLAIMS = {
         "the tool adds on its own is consumed but post-filtered under exactly the same condition, which contains 'not "
         "requested by the caller'; helper conditions equal the specification; process filter predicate equals the "
         "specification; request isolation (the shared tables are cleared unconditionally when a dump's thread map is installed) "
-        "is taken over from C02/R4. Textual equality with an unfiltered run is not decided.",
+        "is taken over from C02/R4, the reviewed set of writers of the thread tables from C14/R4. Textual equality with an unfiltered run is not decided.",
         "Trusts filter() semantics and the interpreter; equality of filtered and unfiltered trace text is argued from "
         "C04/C05-style locality, not checked.",
         "DESIGN.md §4 C13"),
@@ -177,7 +177,7 @@ CLAIMS = {
         "Decides column independence for all 2^6 configurations at once (each column is an alternative on exactly one switch "
         "with an empty 'off' side, no other dependence on switches, fixed order), the one-pair-of-tables clause, the "
         "unknown-thread clause and the writer set (including that a log record's declaration is stored in the iteration that "
-        "yields it). That colouring leaves the text unchanged is not decided.",
+        "yields it, and that a declaration waits for nothing but the pending record it names). That colouring leaves the text unchanged is not decided.",
         "The reviewed writer set is frozen from the reviewed tree with one line of reason per writer.",
         "DESIGN.md §4 C14"),
     "C15": (
@@ -198,7 +198,7 @@ CLAIMS = {
         "fields unconditional, optional fields defaulted) + (guard key == consumed key, each key once) - 2^31 combinations "
         "decided by 41 facts; every optional field's default is shown to be an empty value (absence stays visible). The firehose "
         "bit packing is compared with the construct declaration evaluated to bit ranges; the timeval conversion is brought to a linear "
-        "form over (sec, usec) that must be epoch + sec + usec/10**6 as an aware UTC datetime.",
+        "form over (sec, usec) that must be epoch + sec + usec/10**6 as an aware UTC datetime. A decoded field is stored when its raw key is present, not when the raw value is truthy (R12); that each decoded record is yielded is taken over from C03/R6.",
         "Nested decomposed-message shapes are not decided at value level. The raw-key table is the "
         "one confirmed on the reviewed tree; the firehose bit layout is transcribed from libdispatch's tracepoint header.",
         "DESIGN.md §4 C16"),
@@ -245,7 +245,7 @@ CLAIMS["C20"] = (
     "term matching on the symbolic value of the objects returned by the three composite decoders (gates, selections by "
     "table name, sort key, END-word provenance)",
     "Decides structural clauses for all windows: page-fault result/type from END words 2/3, pid/protection from the decode of "
-    "the first real-fault record among the inner records, taken only when present and decodable - the condition that picks "
+    "the first real-fault record among the inner records (the decoder of those records reads the first record it is handed), taken only when present and decodable - the condition that picks "
     "those records is evaluated for every id of the bundled code table: every RealFaultAddress* code with a registered decoder "
     "is picked and no code outside that group; launch image list = sorted by "
     "load address over every nested image-map and shared-cache-map record; sampler thread info / user stack present exactly "
